@@ -36,7 +36,7 @@ def impl_array(a, dt, trap, dtype=float):
     else:
         a = np.array(a, dtype=float).astype(dtype)
     a0 = np.array(a, dtype=float)
-    r = core.guarded_pure(calc_velo_and_disp_from_accel_arr, a, dt, trap=trap)
+    r = core.guarded_pure(calc_velo_and_disp_from_accel_arr, a, dt, trap=(np.bool_(True) if trap == 'np.True_' else trap))
     if isinstance(r, ImplError):
         raise RuntimeError(str(r))
     v, d = r
@@ -160,8 +160,9 @@ def gen(rng, tier):
                 dty = float          # the rectangle-rule branch multiplies the container by dt: arrays only
             if dty is float and (k // 18) % 3 == 0:
                 a = a * 2.0 ** -rng.choice([30, 34, 40])     # very weak records (|a| < 1e-8): the laws hold at every amplitude
-            r = guarded(impl_array, a, dt, trap, dty)
-            site = 'calc_velo_and_disp_from_accel_arr' + ('' if dty is float else '[%s record]' % (dty.__name__ if dty in (list, tuple) else np.dtype(dty).name))
+            as_np_bool = trap and (k // 3) % 4 == 1      # trap=True arriving as numpy's bool (the result of a comparison): still 'True'
+            r = guarded(impl_array, a, dt, 'np.True_' if as_np_bool else trap, dty)
+            site = 'calc_velo_and_disp_from_accel_arr' + ('' if dty is float else '[%s record]' % (dty.__name__ if dty in (list, tuple) else np.dtype(dty).name)) + ('[trap=np.True_]' if as_np_bool else '')
         # float32 storage: numpy integrates in single precision (relative rounding 6e-8 per operation, accumulated over the
         # record), which is rounding, not a defect: compared at 1e-3 of the series peak instead of exactly
         out.append((site, trap, dt, a, r, 1e-3 if 'float32' in site else 0))
